@@ -553,29 +553,59 @@ func c07Drain(w *World, r *Report) {
 	// Tree.recover: error arm calls a drain before stopParse / before giving up the lexer
 	rec := w.Method("parse", "Tree", "recover")
 	cfd, _ := w.FuncDecl(rec)
-	stop := w.Method("parse", "Tree", "stopParse")
 	okDrain := false
-	ast.Inspect(cfd.Body, func(n ast.Node) bool {
-		blk, ok := n.(*ast.BlockStmt)
-		if !ok {
-			return true
-		}
-		drainIdx, stopIdx := -1, -1
-		for i, s := range blk.List {
-			for _, d := range drains {
-				if len(allCallsTo(p, s, d)) > 0 && drainIdx < 0 {
-					drainIdx = i
+	if rf := w.SSAFunc(rec); rf != nil {
+		lexField := w.Field("parse", "Tree", "lex")
+		// giving up the lexer: t.lex = nil, here or in a helper of the package
+		givesUp := func(g *ssa.Function) bool {
+			for _, gb := range g.Blocks {
+				for _, gin := range gb.Instrs {
+					if st, ok := gin.(*ssa.Store); ok {
+						if fa, ok := st.Addr.(*ssa.FieldAddr); ok && isFieldAddrOf(fa, lexField) && isNilConst(st.Val) {
+							return true
+						}
+					}
 				}
 			}
-			if len(callsTo(p, s, stop)) > 0 {
-				stopIdx = i
+			return false
+		}
+		var gives, drainCalls []ssa.Instruction
+		for _, bl := range rf.Blocks {
+			for _, in := range bl.Instrs {
+				switch x := in.(type) {
+				case *ssa.Store:
+					if fa, ok := x.Addr.(*ssa.FieldAddr); ok && isFieldAddrOf(fa, lexField) && isNilConst(x.Val) {
+						gives = append(gives, in)
+					}
+				case *ssa.Call:
+					g := x.Call.StaticCallee()
+					if g == nil {
+						continue
+					}
+					for _, d := range drains {
+						if g.Object() == types.Object(d) {
+							drainCalls = append(drainCalls, in)
+						}
+					}
+					if g.Pkg == rf.Pkg && g.Blocks != nil && givesUp(g) {
+						gives = append(gives, in)
+					}
+				}
 			}
 		}
-		if drainIdx >= 0 && stopIdx > drainIdx {
-			okDrain = true
+		okDrain = len(gives) > 0
+		for _, gv := range gives {
+			before := false
+			for _, d := range drainCalls {
+				if instrFlowsTo(d, gv) && !instrFlowsTo(gv, d) {
+					before = true
+				}
+			}
+			if !before {
+				okDrain = false
+			}
 		}
-		return true
-	})
+	}
 	r.Check(len(drains) > 0 && okDrain, "R07.2", "Tree.recover drains the lexer", cfd.Pos(), "drain before stopParse on the error path", "when the parser gives up early nobody receives from the lexer any more: its goroutine stays blocked on a send for the life of the process")
 	// Parse defers recover, and the only receiver besides drain is nextItem
 	parse := w.Method("parse", "Tree", "Parse")
